@@ -7,6 +7,8 @@
      [propose_behind_assign]       behind the `:=` of an assignment: null;
      [propose_behind_paren]        behind the `(` of a call, an `if`, a `while`: null;
      [propose_behind_stmt_semic]   behind the `;` that ends an assignment or a call: the variables only;
+     [propose_behind_block_brace]  behind the `{` or the `}` of a block: the statement proposals ([else_or_not]: the
+                                   `else` starters in front in some cases);
      [propose_behind_proc_rcurly]  behind the closing brace of a procedure with a statement other than `;`:
                                    the statement proposals (not the declaration starters);
    white space behind a comment, the position directly behind it (the start of the next line) included:
@@ -324,6 +326,39 @@ Proof.
   rewrite Hpr, (st_spec_simple _ q _ _ _ _ Hv). destruct (Nat.ltb_spec (A + q) (A + (n - 1))); [reflexivity | lia].
 Qed.
 
+(* directly behind the `{` or the `}` of a block: the statement proposals (after `else` proposals in some cases) *)
+Lemma behind_block_brace_eq ca b cb m tprev line col :
+  s' = SBlk ca b cb -> m = len ca \/ m = len (fl_stmt s') - 1 ->
+  nth_error toks (A + m) = Some tprev -> get_insertion_index line col t = te tprev ->
+  exists pe pre, lookup G x = Some (GProcE pe) /\ map fst (pe_local pe) = aparams_names ps ++ map v_x vs /\
+    else_or_not pre /\ propose d line col = ROk (Some (pre ++ new_stmt (Some (pe_local pe)) G)).
+Proof.
+  intros Es Hm Hp Hc.
+  assert (Hlen : len (fl_stmt s') = len ca + 1 + len (fl_stmts b) + len cb + 1) by (rewrite Es; cbn [fl_stmt]; leneq).
+  assert (Ek : exists k, nth_error (fl_stmt s') m = Some k /\ klen k = Some 1%N).
+  { rewrite Es in *. cbn [fl_stmt] in *. destruct Hm as [-> | ->].
+    - exists LCurly. split; [|reflexivity]. apply (nth_at_eq _ (cm ca) LCurly (fl_stmts b ++ cm cb ++ [RCurly])); [reflexivity | leneq].
+    - exists RCurly. split; [|reflexivity].
+      apply (nth_at_eq _ (cm ca ++ LCurly :: fl_stmts b ++ cm cb) RCurly []); [listeq | rewrite Hlen; leneq]. }
+  destruct Ek as [k [Ek Hkl]]. pose proof (kind_at m tprev k Hp Ek) as Hk.
+  pose proof (tok_len t toks _ tprev 1%N Hlex Hp ltac:(rewrite Hk; exact Hkl)) as Hl.
+  assert (Hh : 1 <= len (proc_head c1 c2 x c3 ps c4 c5)) by (unfold proc_head; leneq).
+  destruct (nth_error toks (A + m - 1)) as [last|] eqn:El;
+    [|apply nth_error_None in El; assert (A + m < len toks) by (apply nth_error_Some; congruence); lia].
+  assert (Hreal : is_emp s = false) by (apply (snest_real _ _ _ Hn); rewrite Es; reflexivity).
+  destruct (nested_behind_any p G t toks d Hok Hwt Hlex Hkinds Hdoc l1 c1 c2 x c3 ps c4 c5 vs b1 s b2 c6 l2 g s' Hds Hn
+              m tprev last line col (or_intror Hreal) ltac:(destruct Hm; lia) Hp Hc ltac:(right; split; [lia | exact El]))
+    as [pe [Hlk [Hnames Hpr]]].
+  exists pe. destruct Hpr as [Hpr | [pi Hpr]].
+  - exists [snip_else; item_else]. split; [exact Hlk|]. split; [exact Hnames|]. split; [now right | exact Hpr].
+  - rewrite Es, st_spec_blk in Hpr. unfold else_or in Hpr. destruct (pi && is_rcurly (tk last)).
+    + exists [snip_else; item_else]. split; [exact Hlk|]. split; [exact Hnames|]. split; [now right | exact Hpr].
+    + exists []. split; [exact Hlk|]. split; [exact Hnames|]. split; [now left|]. rewrite Hpr. f_equal.
+      destruct Hm as [-> | ->].
+      * rewrite sts_spec_front by lia. reflexivity.
+      * rewrite sts_spec_past by lia. reflexivity.
+Qed.
+
 (* white space behind a leading comment of a statement *)
 Theorem propose_comment_stmt_lead i tprev tnext line col :
   has_real b1 = true \/ is_emp s = false ->
@@ -376,6 +411,21 @@ Theorem propose_behind_assign l1 c1 c2 x c3 ps c4 c5 vs b1 s b2 c6 l2 g v ca e c
 Proof.
   intros Hds Hn tprev line col Hp Hc.
   exact (behind_assign_eq l1 c1 c2 x c3 ps c4 c5 vs b1 s b2 c6 l2 g _ Hds Hn v ca e cb tprev line col eq_refl Hp Hc).
+Qed.
+
+(* directly behind the `{` (token |ca| of the block) or the `}` (its last token) of a block *)
+Theorem propose_behind_block_brace l1 c1 c2 x c3 ps c4 c5 vs b1 s b2 c6 l2 g ca b cb :
+  a_decls p = l1 ++ DProc c1 c2 x c3 ps c4 c5 vs (sapp b1 (SCons s b2)) c6 :: l2 ->
+  snest s g (SBlk ca b cb) ->
+  forall m tprev line col,
+    m = len ca \/ m = len (fl_stmt (SBlk ca b cb)) - 1 ->
+    nth_error toks (stmt_index l1 c1 c2 x c3 ps c4 c5 vs b1 g + m) = Some tprev ->
+    get_insertion_index line col t = te tprev ->
+    exists pe pre, lookup G x = Some (GProcE pe) /\ map fst (pe_local pe) = aparams_names ps ++ map v_x vs /\
+      else_or_not pre /\ propose d line col = ROk (Some (pre ++ new_stmt (Some (pe_local pe)) G)).
+Proof.
+  intros Hds Hn m tprev line col Hm Hp Hc.
+  exact (behind_block_brace_eq l1 c1 c2 x c3 ps c4 c5 vs b1 s b2 c6 l2 g _ Hds Hn ca b cb m tprev line col eq_refl Hm Hp Hc).
 Qed.
 
 (* white space left of `:=`: the index expressions of the assigned variable *)
